@@ -93,7 +93,7 @@ CLAIMS = {
              "transition function at every reachable state up to observational equivalence (=> order and length "
              "independence of EVERY finite sequence by induction), equality with the statement's join for all 16384 "
              "type sets of the core domain and all small sets of the extended one, and for promote_with: equals the binary "
-             "join, never narrows, keeps nullability, idempotent, commutes, for every (dtype, value type) pair. A dtype whose kind is a SUBCLASS of a ladder kind (Vector(xs, dtype=MyFloat)) is never promoted below the builtin kind it stands for (abstract evaluation over sub_int / sub_float / sub_date / sub_datetime kinds).",
+             "join, never narrows, keeps nullability, idempotent, commutes, for every (dtype, value type) pair. A dtype whose kind is a SUBCLASS of a ladder kind (Vector(xs, dtype=MyFloat)) is never promoted below the builtin kind it stands for (abstract evaluation over sub_int / sub_float / sub_date / sub_datetime kinds). No function of typing.py writes a module-level container (the result of a promotion cannot depend on earlier calls); result sites are also followed into later helpers of the result functions, data and dtype alternatives chosen by one condition are judged branch by branch.",
         note="Trusted: the evaluator's semantics of is/==/in/isinstance/issubclass/type() on type tags and of the statement "
              "subset (anything outside the subset is exit 2, never a pass). Exhaustive over the finite tag domain.",
         technique="finite abstract interpretation of the source (automaton extraction) + exhaustive law checking with partition refinement",
